@@ -1,6 +1,6 @@
 use crate::adt::FieldPosition;
 use crate::deserializer::DeserializationContext;
-use crate::serializer::SerializationContext;
+use crate::serializer::{SerializationContext, StoreStringResult};
 use crate::{BinaryDeserializer, BinaryInput, BinaryOutput, BinarySerializer, DeduplicatedString};
 
 #[derive(Debug)]
@@ -47,6 +47,23 @@ pub(crate) enum SerializedEvolutionStep {
 const UNKNOWN: i32 = 0;
 const FIELD_MADE_OPTIONAL: i32 = -1;
 const FIELD_REMOVED: i32 = -2;
+
+/// Writes a removed-field header entry whose name was registered in the string table earlier
+/// (see `AdtSerializer::new`): in full if that registration introduced the string, as a
+/// back-reference otherwise.
+pub(crate) fn write_removed_field<Output: BinaryOutput>(
+    context: &mut SerializationContext<Output>,
+    name: &StoreStringResult,
+) -> crate::Result<()> {
+    context.write_var_i32(FIELD_REMOVED);
+    match name {
+        StoreStringResult::StringAlreadyStored { id } => {
+            context.write_var_i32(-id.0);
+            Ok(())
+        }
+        StoreStringResult::StringIsNew { value, .. } => value.serialize(context),
+    }
+}
 
 impl BinarySerializer for SerializedEvolutionStep {
     fn serialize<Output: BinaryOutput>(
